@@ -141,7 +141,8 @@ pub fn run(mut run: Run) -> i32 {
         let n = r.len();
         for rot in 0..n {
             for rev in [false, true] {
-                for dup in [None, Some(0usize), Some(n / 2), Some(n - 1)] {
+                // dup: a repeated vertex at position d; usize::MAX = the closing vertex written twice more at the end
+                for dup in [None, Some(0usize), Some(n / 2), Some(n - 1), Some(usize::MAX)] {
                     let mut v = rotate_ring(r, rot);
                     if rev {
                         v.reverse();
@@ -149,10 +150,16 @@ pub fn run(mut run: Run) -> i32 {
                     let a2 = area2(&v);
                     let mut c: Vec<Coord<f64>> = v.iter().map(|&p| tf(p, off, 1.0)).collect();
                     if let Some(d) = dup {
-                        let x = c[d];
-                        c.insert(d, x);
+                        if d != usize::MAX {
+                            let x = c[d];
+                            c.insert(d, x);
+                        }
                     }
                     c.push(c[0]);
+                    if dup == Some(usize::MAX) {
+                        c.push(c[0]);
+                        c.push(c[0]);
+                    }
                     let l = LineString::new(c);
                     let want = if a2 > 0 { WindingOrder::CounterClockwise } else { WindingOrder::Clockwise };
                     let got = l.winding_order();
